@@ -39,12 +39,33 @@ func init() {
 		e.vc.usedExt["intrinsic "+funcKey(fn)+": returns an unconstrained string"] = true
 		return &Sc{e.vc.declare("str", "Int")}
 	}
+	// Lock state as ghost bookkeeping: where a ghost held_<Type>_<field> is declared, it holds
+	// the reference of the object whose <field> mutex the executing function has locked (0: none).
+	// It says nothing about other goroutines; it lets contracts state "this happens under the lock".
+	lockOp := func(set bool) intrinsic {
+		return func(e *Engine, fr *Frame, st *State, fn *ssa.Function, args []SV, resT types.Type, pos token.Pos) SV {
+			if len(args) > 0 {
+				if p, ok := args[0].(*PtrSV); ok && p.Kind == pkHeap && len(p.Path) == 1 && p.Path[0].field >= 0 {
+					if g := heldGhostName(p.Root, p.Path[0].field); g != "" {
+						if _, declared := e.ghostSorts[g]; declared {
+							if set {
+								st.ghost[g] = p.Ref
+							} else {
+								st.ghost[g] = "0"
+							}
+						}
+					}
+				}
+			}
+			return noop(e, fr, st, fn, args, resT, pos)
+		}
+	}
 	intrinsics = map[string]intrinsic{
-		"sync.Mutex.Lock":      noop,
-		"sync.Mutex.Unlock":    noop,
+		"sync.Mutex.Lock":      lockOp(true),
+		"sync.Mutex.Unlock":    lockOp(false),
 		"sync.Mutex.TryLock":   noop,
-		"sync.RWMutex.Lock":    noop,
-		"sync.RWMutex.Unlock":  noop,
+		"sync.RWMutex.Lock":    lockOp(true),
+		"sync.RWMutex.Unlock":  lockOp(false),
 		"sync.RWMutex.RLock":   noop,
 		"sync.RWMutex.RUnlock": noop,
 		"sync.WaitGroup.Add":   noop,
@@ -376,4 +397,17 @@ func init() {
 
 func isBoolRecv(fn *ssa.Function) bool {
 	return fn != nil && strings.HasPrefix(funcKey(fn), "sync/atomic.Bool.")
+}
+
+// heldGhostName: the name of the lock-state ghost for field i of struct type t.
+func heldGhostName(t types.Type, i int) string {
+	n, ok := types.Unalias(t).(*types.Named)
+	if !ok {
+		return ""
+	}
+	stt, ok := n.Underlying().(*types.Struct)
+	if !ok || i >= stt.NumFields() {
+		return ""
+	}
+	return "held_" + n.Obj().Name() + "_" + stt.Field(i).Name()
 }
